@@ -62,6 +62,7 @@ type PathResult struct {
 	Symbolic  bool
 	Viol      []Violation
 	KnownHits []string
+	NoReplay  bool // an uninterpreted predicate decided this path: native result may differ
 }
 
 type Exec struct {
@@ -559,6 +560,7 @@ func (p *Program) runPath(sol *Solver, q *workQueue, it workItem, cfg *RunConfig
 		res.Symbolic = ex.symbolicForks > 0 || len(ex.tc.vars) > 0
 		res.Events = ex.events
 		res.KnownHits = ex.knownHits
+		res.NoReplay = len(ex.uninterp) > 0
 		switch r := r.(type) {
 		case nil:
 			res.Outcome = "ok"
@@ -803,6 +805,7 @@ type RunStats struct {
 	Truncated   bool
 	MaxQueue    int
 	KnownHits   map[string]int64
+	NoReplay    int64
 }
 
 func (p *Program) explore(harnesses []*ssa.Function, cfg *RunConfig) *RunStats {
@@ -863,7 +866,10 @@ func (p *Program) explore(harnesses []*ssa.Function, cfg *RunConfig) *RunStats {
 				if keep && len(st.Results) < 2000 {
 					st.Results = append(st.Results, res)
 				}
-				if (res.Outcome == "ok" || res.Outcome == "panic" || res.Outcome == "stopped") && res.Inputs != nil {
+				if res.NoReplay {
+					st.NoReplay++
+				}
+				if (res.Outcome == "ok" || res.Outcome == "panic" || res.Outcome == "stopped") && res.Inputs != nil && !res.NoReplay {
 					// reservoir of witnesses for native replay
 					if len(st.AllInputs) < cfg.witnessCap() {
 						st.AllInputs = append(st.AllInputs, res)
